@@ -32,12 +32,16 @@ CLAIMED = {
         "DESIGN.md 6/C03",
     ),
     "C20": (
-        "TLA+ state machine of grid pairs under single-entry edits (GridEq.tla); TLC checks the equality laws and dumps pairs with oracle; replayed on real grids",
+        "TLA+ state machines of grid pairs under single-entry edits (GridEq.tla) and of two live grids under derivations, setter / in-place edits, copies and comparisons (GridEqHist.tla); TLC checks the equality laws, emits pairs and histories with oracle; replayed on real grids, traces validated by TraceGridEq.tla",
         "TLC explores every pair of grids reachable from a common base by up to two single-entry edits on one side (thorough: "
         "plus one on the other), checks reflexivity, symmetry, 'equal iff identical' and 'any single edit breaks equality' on the "
         "specification, and emits each pair with the expected answer; each pair is realised as two real Grid objects and ==, != "
-        "are evaluated in both argument orders, with copies, with an independently built identical grid and with non-Grid operands.",
-        "abstract coordinate values are realised as multiples of 10 degrees; 'other format' is realised through source_grid_spec",
+        "are evaluated in both argument orders, with copies, with an independently built identical grid and with non-Grid operands. "
+        "GridEqHist.tla: the answer of == is a function of the two operands' current contents only; TLC proves it for the intended "
+        "mechanism over all histories of three steps (lazy derivations and mutators on one operand, setter / in-place edit of one entry, "
+        "copy / deepcopy, compare) and refutes mechanisms that compare dataset dimensions or cache a digest; the histories (sampled in "
+        "the quick tier, plus simulated ones of six steps) are replayed on two real Grids and validated by TraceGridEq.tla.",
+        "abstract coordinate values are realised 10 degrees, one ulp or 1e-9 degrees apart; 'other format' is realised through source_grid_spec",
         "DESIGN.md 6/C20",
     ),
 }
